@@ -39,7 +39,7 @@ STUBS = [
     "the cluster table is a real pandas DataFrame whose cells hold symbolic values (object dtype)",
 ]
 OUTSIDE = [
-    "removal of clusters (remove_from_frame): the statement does not define the expected per-pixel charge after a removal",
+    "removal of clusters by id is covered for the most recently added cluster (stack discipline); arbitrary id lists are outside",
     "negative array additions and negative cluster numbers (the statement speaks of non-negative charge)",
     "IEEE rounding of position / pixel size at pixel borders (real arithmetic), NaN positions",
 ]
@@ -68,6 +68,8 @@ def tasks(tier, seed):
         # length-4 histories with a reset between two additions and a read somewhere
         hists += [a + m + "E" + b for a in "AC" for m in "ACR" for b in "AC"] + [a + "E" + b + m for a in "AC" for b in "AC" for m in "ACR"]
         hists += ["CRER", "ARCE", "CCRE"]
+        # removals by id (X removes the most recently added cluster still present)
+        hists += ["CX", "CCX", "ACX", "CAX", "ACCX", "ACCXR", "CXC", "ACXC", "CCXX", "ACRX", "CRXR", "ACCXX", "CAXC"]
     else:
         hists += ["".join(h) for h in itertools.product(ops, repeat=4)]
     for h in hists:
@@ -189,6 +191,7 @@ def _run_history(ops, xp, arrs, clus):
     ch = Charge(geo=_geo(HSHAPE, HS[0], HS[1]))
     reads = []
     ia = ic = 0
+    batches = []  # ids the frame gave to the clusters added by each C (most recent last)
     for op in ops:
         if op == "A":
             ch.add_charge_array(arrs[ia])
@@ -196,11 +199,17 @@ def _run_history(ops, xp, arrs, clus):
         elif op == "C":
             n, y, x = clus[ic]
             _add_clusters(ch, xp, [n], [y], [x])
+            batches.append(list(ch.frame.index[-1:]))
             ic += 1
+        elif op == "X":
+            # removal by id of the most recently added cluster that is still there
+            if batches:
+                ch.remove_from_frame(batches.pop())
         elif op == "R":
             reads.append(ch.array.copy())
         elif op == "E":
             ch.empty()
+            batches.clear()
     reads.append(ch.array.copy())
     return reads
 
@@ -230,6 +239,7 @@ def history(ops):
     acc = [[0, 0]]
     want = []
     ia = ic = 0
+    live = []  # clusters added and not yet removed
     for op in ops:
         if op == "A":
             for c in range(2):
@@ -238,11 +248,17 @@ def history(ops):
         elif op == "C":
             n, y, x = clus[ic]
             _credit(acc, HSHAPE, HS[0], HS[1], n, y, x)
+            live.append(clus[ic])
             ic += 1
+        elif op == "X":
+            if live:
+                n, y, x = live.pop()
+                _credit(acc, HSHAPE, HS[0], HS[1], -n, y, x)  # exactly that cluster's charge goes, nothing else
         elif op == "R":
             want.append(list(acc[0]))
         elif op == "E":
             acc = [[0, 0]]
+            live = []
     want.append(list(acc[0]))
     ok = [len(reads) == len(want)]
     for r, wv in zip(reads, want):
@@ -327,6 +343,7 @@ def replay(oid, kwargs, model, data):
         acc = np.zeros(HSHAPE)
         want = []
         ia = ic = 0
+        live = []
         for op in ops:
             if op == "A":
                 acc = acc + arrs[ia]
@@ -337,11 +354,21 @@ def replay(oid, kwargs, model, data):
                 if 0 <= r < 1 and 0 <= c < 2:
                     acc = acc.copy()
                     acc[r, c] += n
+                    live.append((r, c, n))
+                else:
+                    live.append(None)
                 ic += 1
+            elif op == "X":
+                if live:
+                    last = live.pop()
+                    if last is not None:
+                        acc = acc.copy()
+                        acc[last[0], last[1]] -= last[2]
             elif op == "R":
                 want.append(acc.copy())
             elif op == "E":
                 acc = np.zeros(HSHAPE)
+                live = []
         want.append(acc.copy())
         import numba
 
